@@ -46,6 +46,9 @@ func init() {
 			aliasRuleFiltered(ruleWalkRoles("C03.roles"), "C03.roles", "C02.entryname", 1, func(o Oblig) bool { return strings.Contains(o.Key, "ignore rules get the entry name") }),
 			// what Pack writes, Unpack accepts: a link the validator said yes to is not refused by a second opinion
 			ruleAcceptedLinkIsCreated("C02.created"),
+			// each entry's header is written by the callback invocation that made it: a header kept for later (directories
+			// held back until something below them is packed) is lost when nothing comes to release it
+			ruleFreshHeaderPerEntry("C02.ownheader"),
 			aliasRuleFiltered(ruleC01Walk, "C01.walk", "C02.walked", 1, func(o Oblig) bool { return strings.Contains(o.Key, "walked path") })},
 		NotDecided: []string{
 			"round-trip equality itself: tar rounding of mtimes, PAX name handling, Perm() arithmetic, content bytes",
